@@ -47,6 +47,16 @@ sem_t *__wrap_sem_open (const char *name, int oflag, ...) {
 }
 int __real_shm_open (const char *, int, mode_t);
 int __wrap_shm_open (const char *n, int f, mode_t m) { int r; if (want_inject ("shm_open")) { sysev ("shm_open", 1, 1); errno = EINTR; return -1; } r = __real_shm_open (n, f, m); { int e = errno; sysev ("shm_open", r == -1 && e == EINTR, 0); errno = e; } return r; }
+/* close: an interrupted close has released the descriptor already (Linux).  The injected interruption does what a real one followed by
+ * a signal handler that opens a file does: the number is free again and the "handler" gets it.  After the API call its descriptor must
+ * still be open (event hfd). */
+static int handler_fd = -1;
+int __real_close (int);
+int __wrap_close (int fd) {
+	int r;
+	if (want_inject ("close")) { __real_close (fd); if (handler_fd < 0) handler_fd = open ("/dev/null", O_RDONLY); sysev ("close", 1, 1); errno = EINTR; return -1; }
+	r = __real_close (fd); { int e = errno; sysev ("close", r == -1 && e == EINTR, 0); errno = e; } return r;
+}
 
 static void on_alarm (int s) { (void) s; nsig++; }
 static void storm (long usec) {
@@ -121,6 +131,7 @@ int main (int argc, char **argv) {
 		else if (!strcmp (op, "shmunlock")) { pboolean r = p_shm_unlock (shm, NULL); in_api = 0; vt_emit ("{\"e\":\"iret\",\"op\":\"shmunlock\",\"res\":%d,\"elapsed\":0,\"val\":0,\"nsig\":%ld}", r ? 1 : 0, nsig); }
 		else if (!strcmp (op, "shmfree")) { p_shm_take_ownership (shm); p_shm_free (shm); shm = NULL; in_api = 0; vt_emit ("{\"e\":\"iret\",\"op\":\"shmfree\",\"res\":1,\"elapsed\":0,\"val\":0,\"nsig\":%ld}", nsig); }
 		else { in_api = 0; vt_die ("bad op"); }
+		if (handler_fd >= 0) { int ok = fcntl (handler_fd, F_GETFD) != -1; vt_emit ("{\"e\":\"hfd\",\"ok\":%d}", ok); if (ok) __real_close (handler_fd); handler_fd = -1; }
 		if (iplan >= nplan) nplan = iplan = 0;
 	}
 	storm (0);
